@@ -108,7 +108,7 @@ pub fn judge(o: &[u8], f: Fmt, x: Fmt, scheds: &[Sched], acc: &mut Acc) {
 }
 
 pub fn run(ctx: &Ctx) -> i32 {
-    let n = ctx.size(12000, 400000);
+    let n = ctx.size(12000, 1500000);
     let seed = ctx.seed;
     let acc = crate::par::run(n, 16, |i, acc| {
         let mut rng = Rng::derive(seed, 0xc10, i as u64);
